@@ -127,10 +127,6 @@ package eval
 //@   eosexit
 //@   inline 8 2
 
-//@ func (*ti/eval.In).parseArray
-//@   requires wfP(p)
-//@   eosexit
-//@   inline 8 2
 
 //@ func (*ti/eval.In).parseHash
 //@   requires wfP(p)
@@ -187,3 +183,10 @@ package eval
 //@   safe idx,slice
 //@   inline 2 1
 //@   witness idx#0 "def"
+
+//@ func (*ti/eval.In).parseArray
+//@   requires wfP(p) && p != nil
+//@   eosexit
+//@   safe nil
+//@   inline 8 2
+//@   witness nil#1 "arr = [1]\ncase arr\nin [x, "
